@@ -10,6 +10,10 @@ CORPUS = {
         ("a(X) :- b(X,X). r(X) :- a(X), b(X,Y). t(X) :- a(X), b(X,X). #show r/1. #show t/1.", ["b(1,1). b(2,3).", "b(1,2)."]),
         ("{a(X) : b(X)} :- c. r :- a(X), b(X), c. s(X) :- a(X), not b(X). #show r/0. #show s/1.", ["c. b(1).", "b(1)."]),
         ("a(X) :- b(X). a(X) :- c(X). r(X) :- a(X), b(X). #show r/1.", ["b(1). c(2)."]),
+        ("b(1,2). b(X,Y) :- dom(X), dom(Y), X<Y. a(X,Y) :- b(X,Y), dom(X), dom(Y). #show a/2.", ["", "dom(1).", "dom(1..2)."]),
+        ("b(X,Y) :- e(X,Y). b(X,Y) :- f(X), g(Y). b(X,Y) :- h(X), e(X,Y). {c(X,Y)} :- b(X,Y), e(X,Y), h(X). #show c/2.", ["f(1). g(2).", "e(1,2). h(1).", "f(1). g(2). e(1,2)."]),
+        ("{b(X) : d(X)} :- e. b(X) :- f(X). r(X) :- b(X), d(X). #show r/1.", ["e. d(1). f(2).", "f(2)."]),
+        ("b(X) ; c(X) :- d(X). b(X) :- e(X), g(X). r(X) :- b(X), d(X). s(X) :- b(X), g(X). #show r/1. #show s/1.", ["d(1). e(2). g(2).", "e(2). g(2). d(2)."]),
         ("a(X) :- in(X). r(X) :- a(X), in(X). in2(X) :- e(X). s(X) :- in2(X), e(X). #show r/1. #show s/1.", ["in(1). e(2).", "in(3). e(3)."]),
         ("a :- b, #true. c :- d, #false. e :- not #false, b. f :- b : #false; d. g :- b : #true; d. #show a/0. #show c/0. #show e/0. #show f/0. #show g/0.", ["b.", "d.", "b. d."]),
         ("x(S) :- S = #sum{1,X : p(X), #true; 2,Y : q(Y), #false}, d(S). #show x/1.", ["p(1). q(1). d(0..3)."]),
